@@ -138,6 +138,7 @@ func TestC09(t *testing.T) {
 			cfg.MinSizedInts = false
 		}
 		cs := caseOf(cfg, []string{f.RelPath}, f)
+		countShapes(c, f, cs.Config)
 		st, probs := evalC01(cs)
 		c.Count("static." + strings.SplitN(st, ":", 2)[0])
 		if len(probs) > 0 {
